@@ -88,6 +88,10 @@ class Sim:
         self.unsupported = None
         self.probe_hits = {}      # reach probes: name -> count
         self.zombies = 0
+        # fault: the k-th Thread.start() of the run (1-based) fails the way
+        # CPython reports an exhausted thread limit
+        self.fail_thread_start = None
+        self.nstarts = 0
 
     # ------------------------------------------------------------------ util
     def label(self, obj, prefix):
@@ -482,6 +486,11 @@ class SimThread:
         if self.state != 'N':
             raise RuntimeError('threads can only be started once')
         sim._check_baton()
+        sim.nstarts += 1
+        if sim.fail_thread_start == sim.nstarts:
+            sim.hit('fault-fired:thread-start-fails')
+            sim._record(sim.cur.tid, 'start-failed', None)
+            raise RuntimeError("can't start new thread")
         self._register(sim)
         self.state = 'R'
         self._real_start()
